@@ -97,11 +97,14 @@ WrongFor(slot) ==
     [] slot \in {"tagkey", "fieldkey", "tagkey_none", "fieldkey_none"} -> {"int", "int0", "float", "float0", "bool", "bool0", "bytes", "bytes0", "none"}
     [] slot = "tagvalue" -> BadKinds \ {"str", "str0", "numstr", "none"}
     [] slot = "fieldvalue" -> {"bool", "bool0", "bytes", "bytes0", "list", "list0", "dict", "dict0", "str", "str0", "numstr", "numbytes"}
+(* a wrongly typed measurement name handed to insert: by keyword, positionally, for a stored point, and as the name of a  *)
+(* Measurement handle through which a point (or a batch) is then inserted                                                 *)
+InsertMeasEntries == {"insert_meas", "insert_meas_stored", "insert_meas_pos", "handle_insert", "handle_insert_multiple"}
 StaticEntries   == {"update_static", "update_all_static", "handle_update_static"}
 CallableEntries == {"update_callable", "update_all_callable", "handle_update_callable", "update_callable_inplace"}
 KindsFor(entry, slot) ==
   CASE entry \in {"ctor", "setter"} -> WrongFor(slot)
-    [] entry \in {"insert_meas", "insert_meas_stored"} -> IF slot = "measurement" THEN WrongFor(slot) \cap TruthyKinds ELSE {}
+    [] entry \in InsertMeasEntries -> IF slot = "measurement" THEN WrongFor(slot) \cap TruthyKinds ELSE {}
     [] entry = "update_callable_inplace" ->  \* the callable edits the mapping it is given and returns that same object
          IF slot \in {"time", "measurement"} THEN {} ELSE WrongFor(slot)
     [] entry \in StaticEntries ->           \* a falsy static time / measurement means "argument absent"
@@ -117,7 +120,7 @@ BadOps ==
   {[op |-> "bad", entry |-> e, slot |-> sl, kind |-> k, with |-> w,
     q |-> Me("noop", 0), m |-> IF e \in {"handle_update_static", "handle_update_callable"} THEN 1 ELSE N,
     needsel |-> IF e \in CallableEntries THEN 1 ELSE 0] :
-     e \in {"ctor", "setter", "insert_meas", "insert_meas_stored"} \cup StaticEntries \cup CallableEntries, sl \in Slots, k \in BadKinds, w \in Companions}
+     e \in {"ctor", "setter"} \cup InsertMeasEntries \cup StaticEntries \cup CallableEntries, sl \in Slots, k \in BadKinds, w \in Companions}
 
 BadCells == {b \in BadOps :
                /\ b.kind \in KindsFor(b.entry, b.slot)
